@@ -317,8 +317,31 @@ func checkC13(c *Ctx, r *Report) {
 				continue
 			}
 			n := 0
-			for i, e := range phi.Edges {
-				if k, ok := constInt(e); ok && k == 0 {
+			// (phi, edge index) pairs whose incoming value is the constant NONE, through nested phis
+			type pe struct {
+				p *ssa.Phi
+				i int
+			}
+			var zeroEdges []pe
+			seenPhi := map[*ssa.Phi]bool{}
+			var collect func(p *ssa.Phi)
+			collect = func(p *ssa.Phi) {
+				if seenPhi[p] {
+					return
+				}
+				seenPhi[p] = true
+				for i, e := range p.Edges {
+					if k, ok := constInt(e); ok && k == 0 {
+						zeroEdges = append(zeroEdges, pe{p, i})
+					} else if pp, ok := strip(e).(*ssa.Phi); ok {
+						collect(pp)
+					}
+				}
+			}
+			collect(phi)
+			for _, ze := range zeroEdges {
+				phi, i := ze.p, ze.i
+				{
 					n++
 					pred := phi.Block().Preds[i]
 					si := 0
